@@ -692,6 +692,9 @@ class Check(PropertyCheck):
         """For each failing (case, verdict): the id of the recorded defect class that explains it, or None."""
         self._explained = dict(self._explained)
         todo: List[Tuple[str, List[Any], List[str]]] = []
+        by_expr: Dict[str, Optional[str]] = getattr(self, '_explained_expr', {})
+        self._explained_expr = by_expr
+        pending: Dict[str, List[str]] = {}
         for c, v in items:
             key = json.dumps(c)
             if key in self._explained:
@@ -709,15 +712,25 @@ class Check(PropertyCheck):
                 continue
             # the failure must already be there without any line limit (same parent context, linebreakok on or off), and
             # must be gone there once the instances of the recorded classes are replaced by harmless siblings
-            todo.append((key, [[e, 0, 0, 1, ctx], [e, 0, 0, 0, ctx]], [[fixed, 0, 0, 1, ctx], [fixed, 0, 0, 0, ctx]], hits))
+            ekey = json.dumps([e, ctx])
+            if ekey in by_expr:
+                self._explained[key] = by_expr[ekey]
+                continue
+            if ekey in pending:
+                pending[ekey].append(key)
+                continue
+            pending[ekey] = [key]
+            todo.append((ekey, [[e, 0, 0, 1, ctx], [e, 0, 0, 0, ctx]], [[fixed, 0, 0, 1, ctx], [fixed, 0, 0, 0, ctx]], hits))
         if todo:
             cs = [c for t in todo for c in t[1] + t[2]]
             obs = lib.run_impl_worker(WORKER, cs, jobs=16)
             vs = self.run_oracle(cs, obs)
-            for i, (key, _, _, hits) in enumerate(todo):
+            for i, (ekey, _, _, hits) in enumerate(todo):
                 o1, o0, f1, f0 = vs[4 * i: 4 * i + 4]
                 ok = any(vo is not None and vo.startswith('meaning:') and vf is None for vo, vf in ((o1, f1), (o0, f0)))
-                self._explained[key] = hits[0] if ok else None
+                by_expr[ekey] = hits[0] if ok else None
+                for key in pending[ekey]:
+                    self._explained[key] = by_expr[ekey]
 
     def classify_known(self, v: Violation, known: List[dict]) -> Optional[dict]:
         if v.kind != 'oracle' or not v.case:
